@@ -22,7 +22,11 @@ PoolSeq == <<
   pi, B("mul", TRat(1, 2), pi), B("mul", TRat(1, 12), pi), B("mul", TRat(7, 6), pi), B("add", x, pi), B("add", x, B("mul", TRat(3, 2), pi)),
   U("neg", pi), TConst("E"), U("exp", x), U("exp", TInt(2)), U("log", x), U("sin", x), U("cos", B("add", x, y)), U("abs", x),
   U("sign", x), U("floor", x), U("gamma", x), TFn("f", <<x>>), B("add", U("sin", x), TInt(1)), B("add", B("pow", x, TInt(2)), B("mul", TInt(2), x)),
-  B("mul", B("pow", x, TRat(1, 2)), B("pow", y, TRat(-1, 2))), B("add", TRat(1, 2), U("sqrt", TInt(3))) >>
+  B("mul", B("pow", x, TRat(1, 2)), B("pow", y, TRat(-1, 2))), B("add", TRat(1, 2), U("sqrt", TInt(3))),
+  \* complex coefficients whose sign can be extracted
+  B("mul", TComplex(TInt(-1), TInt(2)), x), B("mul", TComplex(TInt(0), TInt(-3)), B("pow", x, TInt(2))),
+  B("mul", TComplex(TRat(-1, 2), TRat(1, 3)), B("mul", x, y)), B("mul", TComplex(TInt(1), TInt(-2)), x),
+  TComplex(TInt(-2), TInt(1)), TComplex(TInt(0), TInt(-1)), B("sub", y, x), B("sub", TInt(-1), x) >>
 N == Len(PoolSeq)
 Bin == {"add", "sub", "mul", "div", "pow", "atan2", "beta", "log2", "kronecker_delta", "polygamma", "lowergamma", "uppergamma"}
 Un == {"neg", "sqrt", "cbrt", "exp", "log", "sin", "cos", "tan", "cot", "sec", "csc", "asin", "acos", "atan", "acot", "asec", "acsc",
